@@ -16,7 +16,7 @@ func init() {
 		Explanation: "Static provenance / gate rules over normalizeNodeURI and connect: (id-binding) the user part of the advertised URL is url.User(nodeID) of the function's own nodeID parameter, an override naming another id is refused, and every caller chain hands in the verified identity; " +
 			"(hostport) url.URL.Host is net.JoinHostPort(host, port) — never a string concatenation, which breaks IPv6 literals — with host/port chosen from the override's Hostname()/Port() or the defaults; " +
 			"(refuse-unknown) the URL is built only past host != \"\", and in connect neither the host registry nor SetNode is reachable from the failure edge of the normalisation; " +
-			"(default) the default host derives from the calling connection's RemoteAddr() via Hostname() and the default port is the constant 30303; the URL that is stored is the one returned. Round 2: (refuse-unknown, transport side) inside the RPC library a reported remote address never comes from an ad-hoc interface or a type assertion on the wrapped value.",
+			"(default) the default host derives from the calling connection's RemoteAddr() via Hostname() and the default port is the constant 30303; the URL that is stored is the one returned. Round 2: (refuse-unknown, transport side) inside the RPC library a reported remote address never comes from an ad-hoc interface or a type assertion on the wrapped value. Round 5: address sources report net.Addr.String() whole; a rejected override is refused.",
 		NotDecided: []string{"not decided: round-trip equality over all URI inputs (url.Parse/String semantics are trusted)"},
 	}
 	Registry["C20"] = Spec{
@@ -24,7 +24,7 @@ func init() {
 		Explanation: "Static lockset / must-pass-through / constant rules over the agent life cycle: (test-and-set) Start reads the started flag and sets it to true inside one uninterrupted a.mu region, refusing with ErrAlreadyStarted before any pool call when it was set; " +
 			"every return of Start between the set and the go statement, and every return of serveUpdates, is preceded by a reset of the flag under a.mu (inline or through a helper, possibly deferred); " +
 			"(single-spawn) Start contains exactly one go statement, reached only past successful Connect and UpdatePeers, whose goroutine sends serveUpdates' result on waitCh; Stop sends on stopCh, serveUpdates selects on it and returns, Wait receives waitCh; " +
-			"(interval) the loop's period is UpdateInterval (default KeepaliveInterval); the command line's value reaches the agent only past 'interval >= maxUpdateInterval => refuse', and maxUpdateInterval is initialised to at most ExpireInterval and written nowhere else. Round 2: only Start, the loop and their reset-helper call sites write the started flag; the loop waits on a timer created in serveUpdates on every run.",
+			"(interval) the loop's period is UpdateInterval (default KeepaliveInterval); the command line's value reaches the agent only past 'interval >= maxUpdateInterval => refuse', and maxUpdateInterval is initialised to at most ExpireInterval and written nowhere else. Round 2: only Start, the loop and their reset-helper call sites write the started flag; the loop waits on a timer created in serveUpdates on every run. Round 5: (start-bounded) every RemotePool stub waits on its own ctx.",
 		NotDecided: []string{"not decided: cadence in real time; Stop on an agent whose loop already ended (it blocks)"},
 	}
 }
@@ -108,6 +108,22 @@ func runC19(p *an.Prog, r *an.Run, tier string) {
 	})
 	if !okRet {
 		bad = append(bad, "the normalised URL is never returned")
+	}
+	// an override the URL parser rejects is refused: taking the raw text some other way (as a bare host, say) skips the
+	// id check — the text has no user part then — and stores something that does not parse back
+	nParse := 0
+	for _, rf := range regionFuncs(p, nz) {
+		for _, c := range an.Calls(rf, false) {
+			if f := an.CallObj(c); an.IsFunc(f, "net/url", "Parse") || an.IsFunc(f, "net/url", "ParseRequestURI") {
+				nParse++
+				for _, w := range failPropagates(p, rf, c) {
+					bad = append(bad, "an override that "+callName(c)+" rejects is not refused: "+w)
+				}
+			}
+		}
+	}
+	if nParse == 0 {
+		bad = append(bad, "the override is not parsed as a URL")
 	}
 	// foreign id refused (in normalizeNodeURI or in a helper it delegates to)
 	okForeign := false
@@ -374,6 +390,10 @@ func runC19(p *an.Prog, r *an.Run, tier string) {
 	judge = func(fn *ssa.Function, v ssa.Value, at token.Pos, depth int) {
 		for _, n := range p.Derives(2, v).Nodes {
 			switch x := n.(type) {
+			case *ssa.TypeAssert:
+				if nt := namedOf(x.X.Type()); nt != nil && nt.Obj().Pkg() != nil && nt.Obj().Pkg().Path() == "net" && nt.Obj().Name() == "Addr" {
+					bad = append(bad, an.FuncName(fn)+" takes the connection's net.Addr apart ("+p.Pos(x.Pos())+") instead of reporting its String(): the pool expects host:port with IPv6 in brackets and cuts anything else at its last colon")
+				}
 			case *ssa.Parameter:
 				// a constructor parameter: judged at the constructor's call sites
 				if depth > 0 && x.Parent() == fn && isBasic(x.Type(), types.String) {
@@ -405,8 +425,8 @@ func runC19(p *an.Prog, r *an.Run, tier string) {
 							bad = append(bad, an.FuncName(fn)+" reports the address of a connection type discovered by type assertion ("+p.Pos(ta.Pos())+")")
 						}
 					}
-				case f.Name() == "RemoteAddr" || f.Name() == "String" || f.Name() == "Error":
-					// delegation to the wrapped connection / net.Addr.String()
+				case f.Name() == "RemoteAddr" || f.Name() == "Error" || (f.Name() == "String" && x.Common().IsInvoke()):
+					// delegation to the wrapped connection / net.Addr.String() as a whole (host:port, IPv6 in brackets)
 				case f.Pkg() != nil && (f.Pkg().Path() == "net/http" || f.Pkg().Path() == "net" || f.Pkg().Path() == "net/textproto" || f.Pkg().Path() == "strings" || f.Pkg().Path() == "fmt"):
 					// a reported address must be the peer's host:port as the network stack gives it; one assembled from
 					// request headers (X-Forwarded-For, ...) or re-formatted is not in that form (a bare IPv6 address is
@@ -888,6 +908,43 @@ func runC20(p *an.Prog, r *an.Run, tier string) {
 	}
 	// the stop case must leave the loop: from the select, a Return is reachable without another tick
 	r.Check(len(bad) == 0, "single-spawn", an.FuncName(start), start.Pos(), "one goroutine, spawned past Connect and UpdatePeers, reporting on waitCh; Stop->stopCh->return; Wait<-waitCh", "%s", strings.Join(dedup(bad), "; "))
+
+	// ---- start-bounded: Start gives the pool a bounded time (startCtx) and undoes itself when that runs out; this
+	// only works if the pool client waits on the context it is handed. Every RemotePool stub passes its own ctx
+	// parameter to the call it makes — a stub that waits on context.Background() makes a silent pool block Start for
+	// ever with the agent marked as started (no second Start, Stop and Wait block too).
+	if rp := p.Named("pool", "RemotePool"); rp != nil {
+		var cb []string
+		nStub := 0
+		for i := 0; i < rp.NumMethods(); i++ {
+			m := p.SSA.FuncValue(rp.Method(i))
+			if m == nil || len(m.Blocks) == 0 || len(m.Params) < 2 || !isContext(m.Params[1].Type()) {
+				continue
+			}
+			ctxPrm := m.Params[1]
+			for _, c := range an.Calls(m, false) {
+				for _, a := range c.Common().Args {
+					if !isContext(a.Type()) {
+						continue
+					}
+					nStub++
+					d := p.Derives(0, a)
+					if !d.HasParam(ctxPrm) {
+						cb = append(cb, an.FuncName(m)+" calls "+callName(c)+" at "+p.Pos(c.Pos())+" with a context that is not its own ctx parameter: the caller's deadline and cancellation do not reach the wait for the pool's reply")
+					}
+					if d.CallTo(func(f *types.Func) bool {
+						return an.IsFunc(f, "context", "Background") || an.IsFunc(f, "context", "TODO")
+					}) != nil {
+						cb = append(cb, an.FuncName(m)+" waits on context.Background() at "+p.Pos(c.Pos()))
+					}
+				}
+			}
+		}
+		r.Floor("pool-stub-calls", nStub, 5)
+		r.Check(len(cb) == 0, "start-bounded", "pool.RemotePool", rp.Obj().Pos(), "every pool stub waits on the caller's context", "%s", strings.Join(dedup(cb), "; "))
+	} else {
+		r.Undec("start-bounded", "pool.RemotePool", token.NoPos, "type not found")
+	}
 
 	// ---- interval
 	bad = nil
